@@ -150,19 +150,9 @@ let vec_machine () : machine =
        sv.(s) <- Model.sv_add_list (es (List.tl (List.tl t))) sv.(s)
      | "srm" -> let s = reg (a 1) in guard (ai 2 >= 0 && ai 2 < List.length sv.(s)) (fun () -> sv.(s) <- Model.sv_remove (n_of_int (ai 2)) sv.(s))
      | "srmr" | "srmrs" ->
-       (* remove(n, m) as documented: the non-zeros n..m are removed (the order of the others is free: the model keeps
-          the leading ones and moves the trailing ones into the hole like IdxSet::remove(n, m)) *)
        let s = reg (a 1) in let n = ai 2 and m = ai 3 in
        guard (0 <= n && n <= m && m < List.length sv.(s) && (c = "srmr" || m < List.length sv.(s) - 1)) (fun () ->
-           let l = sv.(s) in
-           let keep = List.filteri (fun i _ -> i < n || i > m) l in
-           ignore keep;
-           let size = List.length l in
-           let count = m + 1 - n in
-           let tail = size - (m + 1) in
-           let cpy = min count tail in
-           let take k l = List.filteri (fun i _ -> i < k) l and drop k l = List.filteri (fun i _ -> i >= k) l in
-           sv.(s) <- take n l @ drop (size - cpy) l @ take (size - count - n - cpy) (drop (n + cpy) l))
+           sv.(s) <- Model.sv_remove_range (n_of_int n) (n_of_int m) sv.(s))
      | "sclear" -> sv.(reg (a 1)) <- []
      | "sscale" -> let s = reg (a 1) in guard (not (is_zero (q_of_tok (a 2)))) (fun () -> sv.(s) <- Model.sv_scale (q_of_tok (a 2)) sv.(s))
      | "ssort" -> let s = reg (a 1) in sv.(s) <- Model.sv_sort sv.(s)
@@ -285,6 +275,7 @@ let vset_machine (nscal : int) : machine =
      | "clear", [] -> st := Model.ds_clear s
      | "remax", [m] -> st := Model.ds_remax d0 s (zi (int_of_string m))
      | "memremax", [_] | "mempack", [] -> ()
+     | ("copy" | "assign"), _ when iz s.Model.thenum = 0 -> ret := "skip"
      | "copy", [] -> st := Model.ds_assign d0 (Model.ds_init d0 (zi 8)) s     (* SVSetBase(const SVSetBase&): default set, then operator= *)
      | "assign", [m] ->
        let m = int_of_string m in
